@@ -1166,8 +1166,27 @@ fn mutate(r: &mut Rng, c: &mut Case) {
         6 => c.recs[i].iterations = c.recs[i].iterations.wrapping_add(1),
         7 => c.recs[i].salt.push(1),
         8 => {
+            // owner re-based: unrelated zone, child / grandchild / parent / sibling of the zone, root, other case
             let l: Vec<u8> = c.recs[i].owner.iter().next().unwrap().to_vec();
-            c.recs[i].owner = Name::from_ascii("other.").unwrap().prepend_label(&l[..]).unwrap();
+            let zone = c.recs[i].owner.base_name();
+            let base = match r.below(7) {
+                0 => Name::from_ascii("other.").unwrap(),
+                1 => zone.prepend_label("sub").unwrap_or(zone.clone()),
+                2 => zone.prepend_label("sub").and_then(|n| n.prepend_label("a")).unwrap_or(zone.clone()),
+                3 => zone.base_name(),
+                4 => zone.base_name().prepend_label("sibling").unwrap_or(zone.clone()),
+                5 => Name::root(),
+                _ => Name::from_labels(zone.iter().map(|x| x.to_ascii_uppercase())).unwrap_or(zone.clone()),
+            };
+            let all = r.chance(1, 2);
+            for j in 0..c.recs.len() {
+                if all || j == i {
+                    let lj: Vec<u8> = if j == i { l.clone() } else { c.recs[j].owner.iter().next().unwrap().to_vec() };
+                    if let Ok(o) = base.prepend_label(&lj[..]) {
+                        c.recs[j].owner = o;
+                    }
+                }
+            }
         }
         9 => c.soa = None,
         10 => c.soa = Some(Name::from_ascii(*r.pick(&["other.", "z.", "a.z.", "example."])).unwrap()),
@@ -1364,7 +1383,159 @@ fn enumerate(o: &Opts, rec: &mut Recorder) {
     rec.stat_n("enum.cases-evaluated-on-implementation", counter);
 }
 
-/// iteration counts around the limits, for every verdict path
+// ------------------------------------------------------------------ directed families with expectations by construction
+//
+// The generator knows the zone, so it knows which record of the response matches / really covers which
+// name.  It builds the RFC 5155 proof for each proof kind and then varies ONE aspect; the expected
+// verdict follows from the construction (independent of the model and of the reference port):
+//   * `limits`   iteration counts at every boundary of (soft, hard), incl. hard < soft, hard = soft, 0;
+//   * `optmix`   every assignment of Opt-Out flags to the records × every order of the records;
+//   * `ownerbase` the owner of one / every record re-based to <hash>.<base>, base ∈ {zone, zone in other
+//                letter case, child, grandchild, parent, sibling, root}.
+// A mismatch is an oracle failure with the concrete input; it is attributed to an open finding class only
+// if the reference port of the code as it is reproduces the implementation's verdict AND the port with that
+// finding's repair gives the expected one.
+
+#[derive(Clone, Copy, Debug, PartialEq)]
+enum PK {
+    Match,
+    DsOptOut,
+    NxDomain,
+    WildAnswer,
+    WildNoData,
+}
+
+struct Built {
+    kind: PK,
+    case: Case,
+    /// index (into case.recs) of the record whose Opt-Out flag decides: the record covering QNAME
+    /// (DsOptOut) or the next closer name (NxDomain / WildAnswer / WildNoData)
+    decisive: Option<usize>,
+}
+
+/// the chain with the owner hash of every record
+fn chain_h(z: &ZoneSpec) -> Vec<(Vec<u8>, RecIn)> {
+    let ch = chain(z);
+    let n = ch.len();
+    (0..n).map(|i| (ch[(i + n - 1) % n].next.clone(), ch[i].clone())).collect()
+}
+
+fn directed_zone(apex: &str, salt: Vec<u8>, iterations: u16) -> ZoneSpec {
+    let apex = Name::from_ascii(apex).unwrap();
+    let mut names: BTreeMap<Lbls, BTreeSet<u16>> = BTreeMap::new();
+    names.insert(lbls(&apex), apex_types());
+    names.insert(rel_name(&apex, &[b"a"]), [T_A].into_iter().collect());
+    names.insert(rel_name(&apex, &[b"b"]), [T_A, T_TXT].into_iter().collect());
+    names.insert(rel_name(&apex, &[b"*", b"b"]), [T_A].into_iter().collect());
+    names.insert(rel_name(&apex, &[b"d"]), [T_NS].into_iter().collect()); // insecure delegation: not in an opt-out chain
+    names.insert(rel_name(&apex, &[b"c", b"c"]), [T_A].into_iter().collect()); // c.<apex> is an empty non-terminal
+    ZoneSpec { apex, names, salt, iterations, opt_out: true }
+}
+
+/// the RFC 5155 §7.2 proofs of the zone for one query of each kind, from the true matches / covers
+fn build_proofs(z: &ZoneSpec) -> Vec<Built> {
+    let ch = chain_h(z);
+    let h = |n: &Name| nsec3_hash(&z.salt, n, z.iterations);
+    let find_match = |n: &Name| ch.iter().position(|(oh, _)| *oh == h(n));
+    let find_cover = |n: &Name| ch.iter().position(|(oh, r)| inside(oh, &r.next, &h(n)));
+    let name = |ls: &[&[u8]]| name_of(&rel_name(&z.apex, ls));
+    let star = |n: &Name| n.prepend_label("*").unwrap();
+    let mut out = vec![];
+    let mut push = |kind: PK, q: Name, qtype: u16, rcode: u16, wl: Option<u8>, idxs: Vec<Option<usize>>, decisive_pos: Option<usize>| {
+        if idxs.iter().any(|x| x.is_none()) {
+            return;
+        }
+        let idxs: Vec<usize> = idxs.into_iter().flatten().collect();
+        let decisive_chain = decisive_pos.map(|p| idxs[p]);
+        let mut uniq: Vec<usize> = vec![];
+        for i in &idxs {
+            if !uniq.contains(i) {
+                uniq.push(*i);
+            }
+        }
+        let case = Case { q, qtype, soa: Some(z.apex.clone()), rcode, wl, soft: 100, hard: 500, recs: uniq.iter().map(|i| ch[*i].1.clone()).collect() };
+        out.push(Built { kind, case, decisive: decisive_chain.map(|d| uniq.iter().position(|u| *u == d).unwrap()) });
+    };
+    // matching NODATA: a.<apex> TXT (plus the apex record as a bystander)
+    push(PK::Match, name(&[b"a"]), T_TXT, 0, None, vec![find_match(&name(&[b"a"])), find_match(&z.apex)], None);
+    // Opt-Out DS: d.<apex> DS — closest encloser = apex, QNAME (= next closer) covered
+    push(PK::DsOptOut, name(&[b"d"]), T_DS, 0, None, vec![find_match(&z.apex), find_cover(&name(&[b"d"]))], Some(1));
+    // name error below the apex and below a.<apex>
+    push(PK::NxDomain, name(&[b"x"]), T_A, 3, None, vec![find_match(&z.apex), find_cover(&name(&[b"x"])), find_cover(&star(&z.apex))], Some(1));
+    push(PK::NxDomain, name(&[b"x", b"a"]), T_A, 3, None, vec![find_match(&name(&[b"a"])), find_cover(&name(&[b"x", b"a"])), find_cover(&star(&name(&[b"a"])))], Some(1));
+    // wildcard answer x.b.<apex> A from *.b.<apex> (RRSIG labels = labels of b.<apex>), with the record of b as a bystander
+    let bl = name(&[b"b"]).num_labels();
+    push(PK::WildAnswer, name(&[b"x", b"b"]), T_A, 0, Some(bl), vec![find_cover(&name(&[b"x", b"b"])), find_match(&name(&[b"b"]))], Some(0));
+    // wildcard NODATA x.b.<apex> TXT
+    push(PK::WildNoData, name(&[b"x", b"b"]), T_TXT, 0, None, vec![find_match(&name(&[b"b"])), find_cover(&name(&[b"x", b"b"])), find_match(&star(&name(&[b"b"])))], Some(1));
+    out
+}
+
+fn permutations(n: usize) -> Vec<Vec<usize>> {
+    fn go(cur: &mut Vec<usize>, used: &mut Vec<bool>, n: usize, out: &mut Vec<Vec<usize>>) {
+        if cur.len() == n {
+            out.push(cur.clone());
+            return;
+        }
+        for i in 0..n {
+            if !used[i] {
+                used[i] = true;
+                cur.push(i);
+                go(cur, used, n, out);
+                cur.pop();
+                used[i] = false;
+            }
+        }
+    }
+    let mut out = vec![];
+    go(&mut vec![], &mut vec![false; n], n, &mut out);
+    out
+}
+
+const WRAP_FX: Fixes = Fixes { apex: true, wrap: true, optout: false, deleg: true, wild: true };
+const OPTOUT_FX: Fixes = Fixes { apex: true, wrap: false, optout: true, deleg: true, wild: true };
+
+/// Runs a directed case and compares with the expectation by construction.
+fn run_expect(c: &Case, rec: &mut Recorder, tag: &str, expect_secure: Option<bool>, expect_exact: Option<&str>, why: &str) {
+    let out = run_case(c, rec, true, tag);
+    let Some(idx) = out.idx else { return };
+    let got = out.proof.as_str();
+    let bad = match (expect_exact, expect_secure) {
+        (Some(e), _) => got != e,
+        (None, Some(es)) => (got == "secure") != es,
+        _ => false,
+    };
+    if !bad {
+        rec.stat(&format!("{tag}.as-expected"));
+        return;
+    }
+    let want = expect_exact.map(|e| e.to_string()).unwrap_or_else(|| if expect_secure == Some(true) { "secure".into() } else { "not secure".into() });
+    // attribution to an open finding: only if the code as it is (reference port) reproduces the verdict
+    // and the port with the finding's repair agrees with the expectation
+    let agrees = |fx: Fixes| {
+        let v = ref_verify(fx, c);
+        match (expect_exact, expect_secure) {
+            (Some(e), _) => v == e,
+            (None, Some(es)) => (v == "secure") == es,
+            _ => true,
+        }
+    };
+    let class = if ref_verify(CURRENT, c) != got {
+        ""
+    } else if agrees(WRAP_FX) {
+        CLASSES[0].0
+    } else if agrees(OPTOUT_FX) {
+        CLASSES[1].0
+    } else if agrees(ALL_FIXED) {
+        CLASSES[0].0
+    } else {
+        ""
+    };
+    rec.stat(&format!("{tag}.unexpected.{}", if class.is_empty() { "unclassified" } else { class }));
+    rec.fail(idx, format!("{tag}: verify_nsec3 says {got}, expected {want}: {why} (q={} type={} rcode={} wl={})", c.q, c.qtype, c.rcode, opt_tok(&c.wl)), class);
+}
+
+/// iteration counts at every boundary of every (soft, hard) shape, on genuine complete proofs
 fn limits_block(rec: &mut Recorder) {
     let z = ZoneSpec {
         apex: Name::from_ascii("z.").unwrap(),
@@ -1373,32 +1544,117 @@ fn limits_block(rec: &mut Recorder) {
         iterations: 0,
         opt_out: false,
     };
-    for (soft, hard) in [(0u16, 0u16), (1, 2), (2, 4), (3, 3), (4, 2), (100, 500), (0, 65535)] {
-        for it in [0u16, 1, 2, 3, 4, 5, 100, 101, 500, 501, 65535] {
-            if it > 5 && (soft, hard) != (100, 500) {
-                continue;
-            }
+    // soft < hard, soft = hard (incl. 0), hard < soft (incl. hard = 0), the defaults, the extremes
+    let shapes: [(u16, u16); 14] = [(0, 0), (1, 2), (2, 4), (3, 3), (4, 2), (5, 0), (1, 0), (0, 1), (100, 500), (100, 100), (500, 100), (150, 50), (0, 65535), (65535, 0)];
+    for (soft, hard) in shapes {
+        let mut its: Vec<u16> = vec![0, 1];
+        for b in [soft, hard] {
+            its.extend([b.saturating_sub(1), b, b.saturating_add(1)]);
+        }
+        its.sort();
+        its.dedup();
+        for it in its {
             let mut zz = z.clone();
             zz.iterations = it;
-            let ch = if it <= 501 { chain(&zz) } else {
+            // always a genuine chain for this iteration count (so that a validator that wrongly goes on past
+            // a limit finds a valid proof); only the extreme counts are too expensive to hash
+            let ch = if it <= 600 { chain(&zz) } else {
                 let mut c0 = chain(&z);
                 for r in c0.iter_mut() { r.iterations = it; }
                 c0
             };
+            let expect: &str = if it > hard { "bogus" } else if it > soft { "insecure" } else { "secure" };
             for (q, rcode) in [("a.z.", 0u16), ("b.z.", 3), ("z.", 0)] {
                 let c = Case { q: Name::from_ascii(q).unwrap(), qtype: T_TXT, soa: Some(z.apex.clone()), rcode, wl: None, soft, hard, recs: ch.clone() };
-                run_case(&c, rec, true, "limits");
-                // mixed iteration counts
+                // the property: > hard ⇒ Bogus, > soft ⇒ not Secure, a complete proof within both limits ⇒ Secure
+                let (es, ee) = match expect {
+                    "bogus" => (None, Some("bogus")),
+                    "insecure" => (Some(false), None),
+                    _ => (Some(true), None),
+                };
+                run_expect(&c, rec, "limits", es, ee, &format!("iterations {it}, soft limit {soft}, hard limit {hard}, complete genuine proof"));
+                // mixed iteration counts ⇒ never Secure
                 let mut c2 = c.clone();
                 c2.recs[0].iterations = it.wrapping_add(1);
-                run_case(&c2, rec, true, "limits");
+                run_expect(&c2, rec, "limits", Some(false), None, "the records carry different iteration counts");
+            }
+        }
+    }
+}
+
+fn directed(rec: &mut Recorder) {
+    let zones = [directed_zone("z.", vec![], 0), directed_zone("a.b.", vec![0xab, 0xcd], 2), directed_zone("z.", vec![7], 1), directed_zone("a.b.", vec![], 0)];
+    for z in &zones {
+        let proofs = build_proofs(z);
+        rec.stat_n("directed.proofs-built", proofs.len() as u64);
+        for b in &proofs {
+            let n = b.case.recs.len();
+            // ---- control: the genuine proof with the zone's own flags cleared / as decisive needs
+            // ---- optmix: every flag assignment × every order
+            for perm in permutations(n) {
+                for flags in 0..(1u32 << n) {
+                    let mut c = b.case.clone();
+                    c.recs = perm.iter().map(|i| {
+                        let mut r = b.case.recs[*i].clone();
+                        r.opt_out = flags >> i & 1 == 1;
+                        r
+                    }).collect();
+                    let dflag = b.decisive.map(|d| flags >> d & 1 == 1);
+                    let (es, why) = match b.kind {
+                        PK::Match => (true, "a record matching QNAME without the type proves NODATA whatever the Opt-Out flags".to_string()),
+                        PK::DsOptOut => (dflag == Some(true), format!("no record matches QNAME; the record covering QNAME has Opt-Out = {} (RFC 5155 §8.6: Secure iff it is set)", dflag == Some(true))),
+                        _ => (dflag == Some(false), format!("complete {:?} proof; the record covering the next closer name has Opt-Out = {} (RFC 5155 §9.2: Secure iff it is clear)", b.kind, dflag == Some(true))),
+                    };
+                    run_expect(&c, rec, "optmix", Some(es), None, &why);
+                }
+            }
+            // ---- ownerbase: flags cleared except the decisive one of the Opt-Out DS proof
+            let mut genuine = b.case.clone();
+            for (i, r) in genuine.recs.iter_mut().enumerate() {
+                r.opt_out = b.kind == PK::DsOptOut && Some(i) == b.decisive;
+            }
+            let apex = z.apex.clone();
+            let upper = Name::from_labels(apex.iter().map(|l| l.to_ascii_uppercase())).unwrap();
+            let child = apex.prepend_label("sub").unwrap();
+            let grandchild = child.prepend_label("a").unwrap();
+            let parent = apex.base_name();
+            let sibling = parent.prepend_label("sibling").unwrap();
+            let bases: Vec<(&str, Name, bool)> = vec![
+                ("zone", apex.clone(), true),
+                ("zone-other-case", upper, true),
+                ("child", child, false),
+                ("grandchild", grandchild, false),
+                ("parent", parent, false),
+                ("sibling", sibling, false),
+                ("root", Name::root(), false),
+            ];
+            for (bn, base, ok) in &bases {
+                // every record re-based, and each single record re-based among genuine ones
+                let mut which: Vec<Vec<usize>> = vec![(0..n).collect()];
+                if n > 1 {
+                    which.extend((0..n).map(|i| vec![i]));
+                }
+                for w in which {
+                    let mut c = genuine.clone();
+                    for i in &w {
+                        let l: Vec<u8> = c.recs[*i].owner.iter().next().unwrap().to_vec();
+                        let Ok(o) = base.prepend_label(&l[..]) else { continue };
+                        c.recs[*i].owner = o;
+                    }
+                    let why = if *ok {
+                        format!("the owners are <hash>.<{bn}> — the SOA name up to letter case — and the proof is complete")
+                    } else {
+                        format!("{} of {} NSEC3 owner(s) re-based to <hash>.<{bn} of the zone> ({base}): not a record of the response's zone", w.len(), n)
+                    };
+                    run_expect(&c, rec, "ownerbase", Some(*ok), if *ok { None } else { Some("bogus") }, &why);
+                }
             }
         }
     }
 }
 
 pub fn run(o: &Opts, rec: &mut Recorder) {
-    rec.rule = "cases = (query, SOA, rcode, answer-RRSIG labels, NSEC3 list, limits); zones over labels {a,b,*} depth ≤ 3 with real SHA-1 NSEC3 chains built by the harness, subsets/mixtures/mutations of the chain, plus responses of an NSEC3-signed InMemoryZoneHandler; non-trivial = ≥1 record, rcode NOERROR/NXDOMAIN and iterations within both limits (the validators proper are reached); distinct by case line".into();
+    rec.rule = "cases = (query, SOA, rcode, answer-RRSIG labels, NSEC3 list, limits); zones over labels {a,b,*} depth ≤ 3 with real SHA-1 NSEC3 chains built by the harness, subsets/mixtures/mutations of the chain, directed families with expectations by construction (iteration limits at every boundary of soft < / = / > hard; every Opt-Out flag assignment × record order for every proof kind; NSEC3 owners re-based to child / grandchild / parent / sibling / root / other-case of the zone), plus responses of an NSEC3-signed InMemoryZoneHandler through DnssecDnsHandle; non-trivial = ≥1 record, rcode NOERROR/NXDOMAIN and iterations within both limits (the validators proper are reached); distinct by case line".into();
     for l in o.pre_lines.clone() {
         exec(&l, rec);
     }
@@ -1407,6 +1663,7 @@ pub fn run(o: &Opts, rec: &mut Recorder) {
         return;
     }
     limits_block(rec);
+    directed(rec);
     let mut r = Rng::new(o.seed);
     let n = o.n(6000, 60_000);
     for _ in 0..n {
